@@ -36,6 +36,14 @@ Theorem C09_deps : forall cfg roots m t rt,
     (forall x, In x orefs -> exists rx, tmap_get m x = Some rx /\ rt_kind rx = TBuild).
 Proof. exact resolve_default_deps. Qed.
 
+(* how a reference is read (`refs` parses every string of target t with current project t_project t): an unqualified string
+   means a target of the referring target's own project, `p::n` means target n of project p *)
+Theorem C09_reference_resolution : forall s cur id,
+  try_parse s cur = Some id ->
+  (t_project id = cur /\ t_name id = s /\ split_cc s = [s]) \/
+  (exists p t, split_cc s = [p; t] /\ id = {| t_project := Some p; t_name := t |}).
+Proof. exact try_parse_project. Qed.
+
 (* completeness: nothing but a reachable defect makes the resolver refuse *)
 Theorem C09_complete : forall cfg roots,
   ~ broken cfg roots -> exists m, resolve cfg roots (S (n_targets cfg)) = Ok m.
@@ -69,6 +77,18 @@ Theorem C09_request_order_irrelevant : forall cfg r1 r2 f1 f2,
   | _, _ => False
   end.
 Proof. exact resolve_request_order. Qed.
+
+(* … nor on the iteration order of the projects hash map, when project names are pairwise distinct (FX7); more generally
+   the resolver sees the configuration through name lookups only *)
+Theorem C09_project_order_irrelevant : forall cfg1 cfg2 roots fuel,
+  NoDup (map fst (ic_projects cfg1)) -> Permutation.Permutation (ic_projects cfg1) (ic_projects cfg2) ->
+  resolve cfg1 roots fuel = resolve cfg2 roots fuel.
+Proof. exact resolve_project_order. Qed.
+
+Theorem C09_lookups_only : forall cfg1 cfg2 roots fuel,
+  (forall p, proj_dir cfg1 p = proj_dir cfg2 p) -> (forall t, lookup_yt cfg1 t = lookup_yt cfg2 t) ->
+  resolve cfg1 roots fuel = resolve cfg2 roots fuel.
+Proof. exact resolve_config_ext. Qed.
 
 (* the removal of converted targets from the configuration is never observed *)
 Theorem C09_removal_unobservable : forall cfg roots fuel, resolve cfg roots fuel = resolve_p cfg roots fuel.
